@@ -610,7 +610,12 @@ def run(ctx):
         if s.get('pinned'):
             continue
         seen = set()
-        for name, o, args in ref['marks']:
+        marks = ref['marks']
+        if quick and len(marks) > 36:
+            # long sequential shapes: a seeded sample of the boundaries in the quick tier (all of them in thorough)
+            keep = set(ctx.rnd.sample(range(len(marks)), 36))
+            marks = [m for k, m in enumerate(marks) if k in keep]
+        for name, o, args in marks:
             if (name, o) in seen:
                 continue
             seen.add((name, o))
@@ -729,6 +734,7 @@ def replay(ctx, obj):
 
 
 META = dict(
+    engine='tlc+strace-runner+go-harness',
     category='model_checking',
     text='Design model CliFs (TLA+): minify(t) of cmd/minify/main.go as one action per system call for 2 parallel workers over a '
          'POSIX file-system semantics (names, inodes, descriptors), with open/write/minify failures and a crash enabled everywhere; '
